@@ -31,6 +31,20 @@ def main():
         exprs = pickle.loads(job["exprs"])
         for e in exprs:
             out["exprs"].append(c18.expr_fingerprint(e))
+        if job.get("rebuild_tier"):
+            # build the same pool natively in this interpreter: hash-consing must hand back the unpickled objects
+            native = c18.expr_pool(job["rebuild_tier"])
+            bad = []
+            n = 0
+            for u, v in zip(exprs, native):
+                n += 1
+                if u is not v:
+                    why = "hash differs" if u.hash() != v.hash() else "same hash, different object"
+                    if show(u) != show(v):
+                        why = "pool order differs (harness)"
+                    bad.append([show(u)[:200], why])
+            out["not_identical_to_native"] = bad[:50]
+            out["native_compared"] = n
     if job.get("solvers"):
 
         def body():
